@@ -51,7 +51,7 @@ THEOREMS = [
     "recover_a", "recover_e", "recover_i", "recover_Omega", "recover_E", "recover_omega",
     "elements_roundtrip", "elements_roundtrip_mod2pi", "state_roundtrip",
     "true_anomaly_is_polar_angle", "true_anomaly_half_angle", "kepler_equation", "kepler_equation_unique",
-    "model_exprs_ok", "check_k2t_sound", "check_t2k_sound", "gm_is_iers2010_value",
+    "model_exprs_ok", "check_k2t_sound", "check_t2k_sound", "gm_positive",
 ]
 
 REQ = "From Verif Require Import Lib.Dyadic Model.C07_Kepler."
